@@ -6,6 +6,7 @@ import (
 	"go/types"
 	"os"
 	"sort"
+	"strconv"
 	"strings"
 	"sync"
 	"time"
@@ -612,6 +613,15 @@ func (v *Verifier) runPartition(pkg *ssa.Package, fn *ssa.Function, c *Contract,
 	v.preamble = ""
 	v.noMerge = c.Options["nomerge"] != ""
 	v.opaqueCalls = c.Options["opaque-calls"] != ""
+	v.structSlices = c.Options["struct-slices"] != ""
+	v.opaqueWrites = map[string][]int{}
+	for _, n := range strings.Fields(strings.ReplaceAll(c.Options["opaque-writes"], ",", " ")) {
+		if i := strings.LastIndex(n, ":"); i > 0 {
+			if k, err := strconv.Atoi(n[i+1:]); err == nil {
+				v.opaqueWrites[n[:i]] = append(v.opaqueWrites[n[:i]], k)
+			}
+		}
+	}
 	v.allowPanic = c.Options["panics-allowed"] != ""
 	v.allowIndexPanic = c.Options["index-panics-allowed"] != ""
 	v.inlineNames = map[string]bool{}
